@@ -26,8 +26,10 @@ class Case:
         return ";".join(" ".join("%x" % x for x in g) for g in self.groups)
 
 
-def world_hdr(E, wW=64, wcap=0, rW=64, rstrict=0, wcount=0, rcount=0, wbackend=0, rbackend=0):
-    return [1, E, wW, wcap, rW, rstrict, wcount, rcount, wbackend, rbackend]
+def world_hdr(E, wW=64, wcap=0, rW=64, rstrict=0, wcount=0, rcount=0, wbackend=0, rbackend=0, fin=0):
+    # wbackend: 0 vec, 1 slice, 2 byte-stream adapter, 3 recording, 4 adapter over a STAGING sink (bytes
+    # reach the destination only when the sink itself is flushed); fin: how the writer ends (0 drop, 1 into_inner)
+    return [1, E, wW, wcap, rW, rstrict, wcount, rcount, wbackend, rbackend, fin]
 
 
 def patterns(rng, nbytes):
@@ -99,12 +101,14 @@ def gen_C01(rng, tier):
             for used in levels_for(W, rng, 16 if tier == "quick" else 64):
                 pre = fill_prefix_w(W, used)
                 tail = [[1, 5, 3], [3], [3]]
+                # the writer ends by drop or into_inner, with or without pending bits
+                tails = [[[1, 5, 3], [3], [3]], [[1, 5, 3]], [], [[3]]]
                 ns = list(range(0, 65)) if (W <= 16 or tier != "quick") else sorted(set(
                     [0, 1, 2, 7, 8, 9, 15, 16, 17, 31, 32, 33, 62, 63, 64, W - used - 1 if W - used - 1 >= 0 and W - used - 1 <= 64 else 0,
                      min(64, W - used), min(64, W - used + 1)] + [rng.randrange(65) for _ in range(6)]))
                 for n in ns:
                     for name, v in value_patterns(rng, n)[: (4 if tier != "quick" else 3)]:
-                        cases.append(Case([world_hdr(E, wW=W, wbackend=3), []] + pre + [[1, v, n]] + tail,
+                        cases.append(Case([world_hdr(E, wW=W, wbackend=3, fin=rng.randrange(2)), []] + pre + [[1, v, n]] + rng.choice(tails),
                                           "wbits/%s/W%d" % (name, W)))
                 xs = list(range(0, 3 * W + 3)) if W <= 16 or tier != "quick" else sorted(set(
                     list(range(0, 4)) + [W - used - 2, W - used - 1, W - used, W - used + 1, W - 1, W, W + 1,
@@ -113,13 +117,17 @@ def gen_C01(rng, tier):
                 for x in xs:
                     if x < 0:
                         continue
-                    cases.append(Case([world_hdr(E, wW=W, wbackend=3), []] + pre + [[2, x]] + tail, "wunary/W%d" % W))
+                    cases.append(Case([world_hdr(E, wW=W, wbackend=3, fin=rng.randrange(2)), []] + pre + [[2, x]] + rng.choice(tails), "wunary/W%d" % W))
                 cases.append(Case([world_hdr(E, wW=W, wbackend=3), []] + pre + [[3], [3], [1, 1, 1], [3]], "flush/W%d" % W))
+                for wb4 in (0, 4):
+                    # flush with an empty bit buffer still reaches the sink (staging sink: wbackend 4)
+                    cases.append(Case([world_hdr(E, wW=W, wbackend=wb4, fin=rng.randrange(2)), []] + pre + [[3]] + [[1, 3, min(W, 64)]] * (W // min(W, 64)) + [[3], [3], [1, 1, 1]],
+                                      "flush-propagation/W%d" % W, wbackend=wb4))
     # random histories over the four backend kinds
     for _ in range(400 * scale):
         E = rng.randrange(2)
         W = rng.choice(WORDS_W)
-        wb = rng.randrange(4)
+        wb = rng.randrange(5)
         ops = []
         nbits = 0
         for _ in range(rng.randrange(1, 60)):
@@ -136,13 +144,14 @@ def gen_C01(rng, tier):
             else:
                 ops.append([3])
                 nbits = (nbits + W - 1) // W * W
-        ops.append([3])
+        if wb == 4 or rng.random() < 0.5:
+            ops.append([3])
         cap = 0
         if wb == 1:
             # fixed slice: sometimes too small, so that the sink-full error path is exercised
             need = (nbits + W - 1) // W + 1
             cap = need if rng.random() < 0.7 else max(1, need - rng.randrange(1, 4))
-        cases.append(Case([world_hdr(E, wW=W, wcap=cap, wbackend=wb), []] + ops, "history/backend%d" % wb, wbackend=wb))
+        cases.append(Case([world_hdr(E, wW=W, wcap=cap, wbackend=wb, fin=rng.randrange(2)), []] + ops, "history/backend%d" % wb, wbackend=wb))
     return cases
 
 
